@@ -36,6 +36,13 @@ theorem rewrite_keeps_subtree_slurp (opts q : JV) (s : String) (hs : slurpOf opt
       (rewriteBody opts q) :=
   slurp_keeps opts q s hs
 
+/-- The literal encoding is faithful: the AST-of-the-literal that `_query_toquery` builds evaluates back to exactly
+    the value it was built from, for every canonical JSON value without numbers (every AST `_query_fromstring`
+    yields is one).  So in slurp mode `orig` and `rewrite` ARE the user's query and the wrapped pipeline. -/
+theorem slurp_literal_faithful (x : JV) (fuel : Nat) (hc : Canon x) (hf : x.size + 1 ≤ fuel) :
+    evalLit fuel (toquery x) = some x :=
+  evalLit_toquery x fuel hc hf
+
 /-! ### no binder is introduced -/
 
 /-- The binders (`as` patterns, reduce/foreach, labels, function definitions with their parameters) of the rewritten
@@ -183,6 +190,10 @@ example : parse (print (.bin .cmp (.bin .cmp (.atom "a") (.atom "b")) (.atom "c"
 def q12 : List (String × JV) :=
   [("left", .obj [("term", .obj [("number", .str "1"), ("type", .str "TermTypeNumber")])]), ("op", .str ","),
    ("right", .obj [("term", .obj [("number", .str "2"), ("type", .str "TermTypeNumber")])])]
+
+/-- `Canon` holds for ASTs as they come out of the parser -/
+example : Canon (.obj q12) := by
+  simp [q12, Canon, CanonKV, List.pairwise_cons]
 
 example : (slurpOf (cliOpts (queryFunc0 (.str "inputs"))) (.obj q12)).truthy = false ∧
     ((cliOpts (queryFunc0 (.str "inputs"))).get "catch_query").truthy = true ∧ hasMain (.obj q12) = true := by decide
